@@ -37,12 +37,17 @@ class ConveyorOracle:
         self.overlap_seen_at = None
         self.done = False
         self.nontrivial = False
+        self.aligned = True       # every put and get so far happened at an integer multiple of the step
         self.cancel_times = []    # instants at which a granted retrieval was cancelled (the belt is not told)
         self._ncanc = 0
         sh.observers.append(self)
 
     def tol(self, t):
         return TOL * max(1.0, abs(t))
+
+    def _is_aligned(self, t):
+        k = t / self.s
+        return abs(k - round(k)) <= 1e-6 * max(1.0, abs(k))
 
     def viol(self, prop, check, mech, detail):
         detail = dict(detail)
@@ -82,12 +87,28 @@ class ConveyorOracle:
         now = ir.put_t
         mon = self.mon
         mon.counters["c12_puts"] += 1
+        if not self._is_aligned(now):
+            self.aligned = False
+        prev = self.items[-1] if self.items else None
         if self.last_put_t is not None:
             gap = now - self.last_put_t
             if gap < self.s - ADM:
                 self.viol("C12", "entry_spacing", "successive-items-entered-less-than-one-item-length-apart",
                           {"gap": gap, "item": ir.iid, "t": now, "granted_puts_outstanding": len(sh.grant["put"])})
         self.last_put_t = now
+        # strong spacing (non-accumulating): the previous item must have *moved* one item length, i.e. the time
+        # the belt stood still (narrow reading: certainly stopped) does not count
+        if prev is not None and not self.acc and prev.ready_t is None:
+            stood = self.overlap(self.narrow, prev.put_t, now, self._n_open, now)
+            moved = (now - prev.put_t) - stood
+            mon.counters["c12_strong_spacing_checked"] += 1
+            if moved < self.s - ADM - self.tol(now):
+                canc = any(prev.put_t <= c <= now for c in self.cancel_times)
+                if canc:
+                    mon.counters["c12_strong_spacing_skipped_after_cancel"] += 1
+                else:
+                    self.viol("C12", "entry_spacing_travel", "item-admitted-before-the-previous-one-had-travelled-one-item-length",
+                              {"item": ir.iid, "prev": prev.iid, "elapsed": now - prev.put_t, "belt_stopped_for": stood, "moved": moved})
         # NA1: the space for this item was *granted* while the head had been waiting unreserved at the exit
         # (a put with a reservation granted before the stall must be honoured - C01 - and is tolerated)
         ir.in_stall = self._n_open is not None and now > self._n_open + self.tol(now)
@@ -118,6 +139,8 @@ class ConveyorOracle:
     def on_get(self, sh, ir, rec):
         now = sh.now()
         self.mon.counters["c12_gets"] += 1
+        if not self._is_aligned(now):
+            self.aligned = False
         older = [x for x in sh.held.values() if x.put_seq < ir.put_seq and x.status == "never" and x.ready_t is not None or
                  (x.put_seq < ir.put_seq and x.status == "never" and x.ready_t is None)]
         if older:
